@@ -469,6 +469,16 @@ _EXTRA = {
 }
 for _id, _rules in _EXTRA.items():
     PROPERTIES[_id]["rules"].extend(_rules)
+# every property handles Atoms objects: no method keeps state the constructor does not know (results must not depend on the history of calls on an object)
+for _id in sorted(PROPERTIES):
+    PROPERTIES[_id]["rules"].append((G2.G35_hidden_instance_state, "%s Atoms methods keep no state outside the fields the constructor creates (no memo of earlier calls on the object)" % _id))
+for _id in ("C09", "C13", "C15", "C16", "C20"):
+    PROPERTIES[_id]["rules"].append((G2.G33_effect_before_validation, "%s readers / writers: a refusal that depends on the arguments comes before the target file is opened for writing; a file object handed in by the caller is not closed" % _id))
+for _id in ("C15", "C16"):
+    PROPERTIES[_id]["rules"].append((B.G1_no_swallowed_errors, "%s the dispatcher and the reader let their refusals (non-P1 symmetry, unsupported type, malformed input) reach the caller: no handler swallows them" % _id))
+for _id in ("C13", "C15", "C16", "C17", "C20"):
+    PROPERTIES[_id]["rules"].append((A.A21_no_mutable_default_mutation, "%s results do not depend on earlier calls: parameters with mutable defaults are never written" % _id))
+PROPERTIES["C07"]["rules"].append((C.C_idx_find, "C07 an overlap can only be refused if both occurrences reach the guard: the duplicate key of the search keeps multiplicity (a set-valued key merges distinct occurrences that use the same atoms through different images)"))
 PROPERTIES["C18"]["decided"] += ("; the torsion case analysis of dihedral_params, evaluated over the finite partition of hybridisation characters and element classes induced by its own "
                                  "comparisons, selects the documented case (n, sign, barrier monomial incl. the division by the multiplicity) for every combination; user bond-order rules dominate built-in guesses")
 PROPERTIES["C18"]["explanation"] += " Decision-table evaluation over a finite abstract domain (representatives of the comparison-induced partition; no execution)."
